@@ -588,8 +588,68 @@ func (a *e4) follow(fn *ssa.Function, v ssa.Value, st escState, seen map[ssa.Val
 				}
 				// the concatenation is SQL text, no longer a bare escaped value
 			}
+		case *ssa.MapUpdate:
+			// kept as a value of a map (named template parameters): what is read back out of the map is the escaped text
+			if x.Value == v {
+				a.followMap(fn, x.Map, st, seen)
+			}
 		case ssa.CallInstruction:
 			a.useInCall(fn, x, v, st, seen)
+		}
+	}
+}
+
+// followMap: the values of map m include escaped text; follow what is read from it — lookups, range loops — here and in the module
+// functions the map is handed to.
+func (a *e4) followMap(fn *ssa.Function, m ssa.Value, st escState, seen map[ssa.Value]bool) {
+	if seen[m] || m.Referrers() == nil {
+		return
+	}
+	seen[m] = true
+	for _, r := range *m.Referrers() {
+		switch x := r.(type) {
+		case *ssa.Lookup:
+			if x.X != m {
+				continue
+			}
+			if x.CommaOk {
+				if x.Referrers() != nil {
+					for _, rr := range *x.Referrers() {
+						if ex, ok := rr.(*ssa.Extract); ok && ex.Index == 0 {
+							a.follow(fn, ex, st, seen)
+						}
+					}
+				}
+			} else {
+				a.follow(fn, x, st, seen)
+			}
+		case *ssa.Range:
+			if x.Referrers() == nil {
+				continue
+			}
+			for _, rr := range *x.Referrers() {
+				nx, ok := rr.(*ssa.Next)
+				if !ok || nx.Referrers() == nil {
+					continue
+				}
+				for _, r3 := range *nx.Referrers() {
+					if ex, ok := r3.(*ssa.Extract); ok && ex.Index == 2 {
+						a.follow(fn, ex, st, seen)
+					}
+				}
+			}
+		case *ssa.Phi:
+			a.followMap(fn, x, st, seen)
+		case ssa.CallInstruction:
+			sc := x.Common().StaticCallee()
+			if sc == nil || len(sc.Blocks) == 0 {
+				continue
+			}
+			for i, arg := range x.Common().Args {
+				if arg == m && i < len(sc.Params) {
+					a.followMap(sc, sc.Params[i], st, seen)
+				}
+			}
 		}
 	}
 }
@@ -634,6 +694,11 @@ func (a *e4) useInCall(fn *ssa.Function, ci ssa.CallInstruction, v ssa.Value, st
 	}
 	switch pkg {
 	case "strings", "bytes", "regexp", "unicode/utf8", "strconv":
+		if argIdx == 2 && pkg == "strings" && (sc.Name() == "Replace" || sc.Name() == "ReplaceAll") && res != nil {
+			// substituted into a template: the result contains the escaped text (a later substitution over that result scans it)
+			a.follow(fn, res, st, seen)
+			return
+		}
 		if argIdx != 0 && !(strings.HasPrefix(full, "(*regexp.Regexp).Replace") && argIdx == 1) {
 			return // used as separator / pattern argument, not the transformed text
 		}
